@@ -349,6 +349,9 @@ EXPR_SOURCES = [
     "(7000, 7001)", "[7000, [7001, 7002]]", "7000 < 7001", "7000 < x < 7001", "x.a", "x.a.b", "f(x.a, 7000)",
     "f(7000 + 7001, 7001 + 7000)", "[f(7000), f(7001)]", "-7000", "not x", "x if 7000 else 7001", "f(a=7000)",
     "f(7000, a=7001)", "{7000: 7001}", "x[7000]", "f(7000 + 7000)", "7000 - 7001", "f(g(7000), g(7001))",
+    # constants of different types that compare (and hash) equal in Python are different trees
+    "1 == True", "1 == 1.0", "0 == False", "1 == 1", "True == True", "f(True, 1)", "f(0.0, False)", "f(1.0, 1.0)",
+    "[1, 2, 1.0]", "[0, x, False]", "f(None, None)", "f('1', 1)", "f('a', 'a')", "f(b'a', 'a')", "{1: True}",
 ]
 EXPR_PATTERNS = [
     "7000", "x", "W_x + W_x", "W_x + W_y", "W_x + 7001", "7000 + W_x", "W_x + W_y + W_x", "(W_x + W_y) * W_x",
@@ -358,7 +361,7 @@ EXPR_PATTERNS = [
     "(W_x, W_y)", "[W_x, [W_y, W_x]]", "W_x < W_y", "W_x < W_y < W_x", "7000 < W_x", "W_x.a", "W_x.a.b", "W_x.W_a",
     "f(W_x.a, W_y)", "f(W_x + W_y, W_y + W_x)", "[f(W_x), f(W_x)]", "-W_x", "not W_x", "W_a if W_x else W_x",
     "f(a=W_x)", "f(W_x, a=W_x)", "{W_x: W_x}", "W_x[W_y]", "f(W_x + W_x)", "W_x - W_x", "f(g(W_x), g(W_x))",
-    "f(7000, 7001)", "7000 + 7001", "7001 + 7000",
+    "f(7000, 7001)", "7000 + 7001", "7001 + 7000", "W_x == W_x", "W_x == W_y",
 ]
 STMT_SOURCES = [
     "x = 7000\n", "x = 7000\ny = 7001\n", "x = 7000\ny = 7000\nz = 7001\n", "f(7000)\n", "f(7000)\nf(7001)\ng(7000)\n",
@@ -369,6 +372,7 @@ STMT_SOURCES = [
     "x = 7000\nif c:\n    x = 7000\n    if d:\n        x = 7001\n", "class A:\n    x = 7000\n    y = 7001\n",
     "try:\n    x = 7000\n    x = 7001\nexcept E:\n    x = 7000\n    x = 7001\nfinally:\n    x = 7000\n    x = 7001\n",
     "x = y = 7000\n", "x += 7000\n", "return_ = 7000 + 7001\n", "import a\nx = 7000\n", "x = 7000; y = 7001\n",
+    "x = 1\ny = True\n", "if c:\n    x = 0\n    y = 0.0\nelse:\n    x = 1\n    y = 1\n", "f(1)\nf(1.0)\nf(True)\nf(1)\n",
 ]
 STMT_PATTERNS = [
     "x = 7000", "x = W_v", "W_t = W_v", "W_t = 7000", "x = W_v\ny = W_v", "W_t = W_v\nW_u = W_v", "W_t = W_v\nW_t = W_w",
